@@ -2,7 +2,7 @@
    Only ExtrOcamlBasic's directives are used (bool, option, list, prod, unit, sumbool
    mapped to OCaml's own types); N, Z, positive and nat stay extracted inductives. *)
 From Coq Require Import ExtrOcamlBasic.
-From VL Require Import Base Json Schema Wire WireSet Service Script.
+From VL Require Import Base Json Schema Wire WireSet Service Script Client.
 From VLG Require Import WireGen SetGen.
 Extraction Language OCaml.
 Separate Extraction
@@ -17,4 +17,5 @@ Separate Extraction
   WireGen.schema_ErrorInterfaceNotFound WireGen.schema_ErrorInvalidParameter
   WireGen.schema_ErrorMethodNotImplemented WireGen.schema_ErrorMethodNotFound
   WireSet.set_ser WireSet.set_de_value WireSet.set_de_text WireSet.map_ser WireSet.map_de_value WireSet.map_de_text
-  SetGen.set_visitor_consumes_value.
+  SetGen.set_visitor_consumes_value
+  Client.cstep Client.cs_init Client.new_call.
